@@ -97,8 +97,13 @@ func HeaderHash(h int) phase0.Hash32 {
 	return x
 }
 
-// BuildBid constructs and signs the bid.
+// BuildBid constructs and signs the bid on the relay's configured parent.
 func (r *Relay) BuildBid(b *BidSpec) *builderspec.VersionedSignedBuilderBid {
+	return r.BuildBidOn(b, r.Parent)
+}
+
+// BuildBidOn constructs and signs the bid for a payload built on the given parent.
+func (r *Relay) BuildBidOn(b *BidSpec, parent phase0.Hash32) *builderspec.VersionedSignedBuilderBid {
 	if b.Empty {
 		return &builderspec.VersionedSignedBuilderBid{Version: spec.DataVersionDeneb}
 	}
@@ -111,7 +116,7 @@ func (r *Relay) BuildBid(b *BidSpec) *builderspec.VersionedSignedBuilderBid {
 		ts += 12
 	}
 	msg := &builderdeneb.BuilderBid{
-		Header: &deneb.ExecutionPayloadHeader{ParentHash: r.Parent, FeeRecipient: fr, Timestamp: ts, BlockHash: HeaderHash(b.Header),
+		Header: &deneb.ExecutionPayloadHeader{ParentHash: parent, FeeRecipient: fr, Timestamp: ts, BlockHash: HeaderHash(b.Header),
 			BaseFeePerGas: uint256.NewInt(7), BlockNumber: uint64(b.Header), GasLimit: 30000000},
 		Value:  uint256.NewInt(b.Value),
 		Pubkey: BuilderPub(b.Builder),
@@ -131,7 +136,7 @@ func (r *Relay) BuildBid(b *BidSpec) *builderspec.VersionedSignedBuilderBid {
 	return bid
 }
 
-func (r *Relay) BuilderBid(ctx context.Context, _ *builderapi.BuilderBidOpts) (*builderapi.Response[*builderspec.VersionedSignedBuilderBid], error) {
+func (r *Relay) BuilderBid(ctx context.Context, opts *builderapi.BuilderBidOpts) (*builderapi.Response[*builderspec.VersionedSignedBuilderBid], error) {
 	if r.Silent {
 		<-ctx.Done()
 		return nil, ctx.Err()
@@ -160,7 +165,12 @@ func (r *Relay) BuilderBid(ctx context.Context, _ *builderapi.BuilderBidOpts) (*
 	if cur.Nil {
 		return &builderapi.Response[*builderspec.VersionedSignedBuilderBid]{Data: nil, Metadata: map[string]any{}}, nil
 	}
-	return &builderapi.Response[*builderspec.VersionedSignedBuilderBid]{Data: r.BuildBid(cur), Metadata: map[string]any{}}, nil
+	// a relay bids on the parent it is asked about
+	parent := r.Parent
+	if opts != nil && opts.ParentHash != (phase0.Hash32{}) {
+		parent = opts.ParentHash
+	}
+	return &builderapi.Response[*builderspec.VersionedSignedBuilderBid]{Data: r.BuildBidOn(cur, parent), Metadata: map[string]any{}}, nil
 }
 
 func (r *Relay) SubmitValidatorRegistrations(ctx context.Context, opts *builderapi.SubmitValidatorRegistrationsOpts) error {
